@@ -25,6 +25,25 @@ CHECKS = {
                 text="The host-side probe log is the execution count: RexTrace consumes exactly one log entry per executed tick in sequence order, none for overridden / cancelled supervisor ticks, and rejects leftovers."),
 }
 
+
+CHECKS.update({
+    "C01": dict(level="translation_validation", ref="6 C01",
+                technique="translation validation: probe logs of the threaded and the compiled runtime compared step by step inside a TLA+ trace specification (RexRun clauses MatchesAsync_*), compiled log validated as a run of the abstract machine RexRun",
+                text="Each (graph, recorded experiment, supergraph mode, prune, episode) is a program pair: the episode is recorded on the threaded runtime, converted, compiled and re-executed from the same initial rng/params/state; RexRun accepts the compiled probe log only if every step equals the asynchronous one (eps/seq, start time, rng chain position, state, windows incl. payloads, output)."),
+    "C07": dict(level="model_checking", ref="6 C07",
+                technique="TLA+ abstract machine of the schedule (RexSchedule) replaying the public Graph.timings of real compiled instances against independent TLA+ definitions (WindowOf from raw edges)",
+                text="Every episode of every compiled instance (recorded and generated graphs, 3 supergraph modes x prune x S_init) is executed generation by generation by RexSchedule: EachVertexOnce, InSeqOrder, ProducersFirst, SupClosesPartition, CarriesOwnTimes, CarriesOwnWindow, RequiredExecuted."),
+    "C08": dict(level="model_checking", ref="6 C08",
+                technique="TLA+ ring-buffer machine (RexRun / RexSchedule): static replay of Graph.timings against buffer sizes + trace validation of payloads seen by probe nodes in real compiled executions",
+                text="RexRun models the output ring buffers (write at seq mod size at generation end, read at window.seq mod size); the payload of every window entry a probe saw must be what the model reads (ReadsRing) and that must be the scheduled producer emission or the default output (ScheduledPayload); buffer sizes automatic, extra_padding 0/1/3 and user-supplied (minimum..minimum+2; below the minimum must be refused)."),
+    "C09": dict(level="model_checking", ref="6 C09",
+                technique="TLA+ API model (RexApi) enumerating call histories with their normal forms via TLC + replay on the real Graph with trace validation (RexRun API layer) and bitwise comparison of GraphStates of equal-normal-form histories",
+                text="TLC enumerates all call histories over run/reset/step/step-with-override/rollout up to the bound; each is replayed jitted (and eagerly for a sample): probe log, step counter, sequence numbers and node states must follow RexRun; histories with the same normal form must leave bitwise identical GraphState pytrees; init() clipping and params override, vmapped = un-batched, full-trajectory = carry-only rollout."),
+    "C13": dict(level="model_checking", ref="6 C13",
+                technique="trace validation: records against probe logs inside RexTrace / RexRun (Record* clauses), cross-run agreement (Deterministic, InertLog) over record-flag combinations and max_records",
+                text="Threaded runtime: every record-flag combination and truncation of the same graph/seed/history must be a behaviour of RexLaw, agree with the fully recorded run on the common prefix and leave the probe logs identical; compiled runtime: aux['record'] rows equal the probe log for executed steps and stay -1 otherwise, final GraphState minus the record is identical with and without recording."),
+})
+
 NA = {
     "C11": "numeric claim about one pure function (interpolation exactness, continuity, gradient); no state, schedule or history for a TLA+ model to decide (DESIGN 7)",
     "C15": "numeric/statistical claims about pure distribution functions (quantiles, CDF agreement, estimator normalisation) (DESIGN 7)",
